@@ -7,4 +7,3 @@ import (
 )
 
 func handlerOf(gw *protocol.Gateway) http.Handler { return http.HandlerFunc(gw.HandleGatewayProtocol) }
-
